@@ -16,15 +16,21 @@ Verdicts (first that applies):
      local-time    a returned instant does not read the naive result although that local time exists
      later         … exists twice and the earlier instant was returned
      first-valid   the naive result does not exist and the returned instant is not the first valid
-                   instant after it; classes (decidable on (table, naive instant), `OH/Model/Tz.lean`):
-                   `unaligned-gap` = `unalignedGap z n`, `zone-not-ok` = `gapLandsInFold z n`
+                   instant after it (`OH.Props.C09.FirstValidAfter`, computed by `gapOf`:
+                   `firstValidAfter_of_gapOf`) — judged by the same rule for EVERY table, also when a
+                   fold follows the gap directly (Europe/Lisbon 1992; the former class `zone-not-ok`,
+                   repaired in /repo e1e5204, is no longer excused); a sub-second phase of the
+                   requested time (direct `tz.datetime` ops only) is kept: first valid instant + phase
+                   (`datetime_gap_ordered`); class `unaligned-gap` = `unalignedGap z n` (repaired too)
      backwards     interval bounds go backwards in absolute time; class `unaligned-gap-backwards` =
                    `backwardsInGap z a b` for the naive bounds `a ≤ b` concerned
      c02-nonempty  an interval is EMPTY although the naive interval is not.  Not a C09 violation (bounds
                    do not go backwards): C02's "intervals are non-empty" in a zone context;
                    class `D16-empty-interval-in-gap` = `localSpanInGap z a b`
   `disagree model=…`                 clauses hold but model ≠ implementation
-  `ok <tag>`
+  `ok <tag>`                         suffix `-nzok`: the table is not `zoneOK` but `zoneOrdered` (the
+                                     `…_ordered` theorems apply); `-nzok-nord`: not even `zoneOrdered`
+                                     (Europe/Dublin 1916: judged by the same rules, outside the theorems)
 -/
 namespace OH.Driver.Tz
 open OH.Model OH.Model.Tz OH.Driver OH.Driver.Ev
@@ -76,19 +82,20 @@ def checkMapped (z : Zone) (n u : Int) : Option String :=
     | some (T, _, b) =>
       if u = T then none
       -- a sub-second phase of `n` only comes from direct `tz.datetime` ops and is not a naive result:
-      -- there the proven value of `datetime_gap` (first valid instant + phase) is what is checked
-      else if n % nsPerSec ≠ 0 ∧ ¬ gapLandsInFold z n ∧ u = T + (n - b) % nsPerSec then none
-      else if gapLandsInFold z n then some "first-valid class=zone-not-ok"
+      -- there the proven value of `datetime_gap_ordered` (first valid instant + phase) is what is
+      -- checked — in every zone, whether or not a fold follows the gap
+      else if n % nsPerSec ≠ 0 ∧ u = T + (n - b) % nsPerSec then none
       else if unalignedGap z n then some "first-valid class=unaligned-gap"
       else some "first-valid"
-    | none => some "first-valid class=zone-not-ok"
+    -- no forward jump skips `n` although no instant shows it: impossible for a sorted table
+    | none => some "first-valid"
   | l =>
     if naive z u ≠ n then some "local-time"
     else if l.getLast? ≠ some u then some "later"
     else none
 
 def okTag (z : Zone) (tag : String) : String :=
-  if zoneOK z then s!"ok {tag}" else s!"ok {tag}-nzok"
+  if zoneOK z then s!"ok {tag}" else if zoneOrdered z then s!"ok {tag}-nzok" else s!"ok {tag}-nzok-nord"
 
 def finish (z : Zone) (tag : String) (clause : Option String) (model impl : List String)
     (evOk : Bool := true) : String :=
